@@ -119,6 +119,7 @@ def _spawn_worker(prop, shard, tier, master, out_path, variant, only_runs=None):
     env = dict(os.environ)
     env["PYTHONHASHSEED"] = str(core.hash_seed_for(master, prop, shard, variant))
     env["PYTHONDONTWRITEBYTECODE"] = "1"
+    env["PYTHONWARNINGS"] = "ignore"
     cmd = [PY, CHECK, "--worker", prop, "--shard", str(shard), "--tier", tier, "--seed", str(master),
            "--out", out_path, "--variant", str(variant)]
     if only_runs is not None:
@@ -177,6 +178,15 @@ def minimise(mod, scenario, target, budget_s=90, max_exec=400):
     t0 = time.time()
     n_exec = 0
     improved = True
+    # a violation may carry a hint that narrows the scenario to the failing fault point
+    if target.get("narrow") and hasattr(mod, "apply_narrow"):
+        try:
+            cand = mod.apply_narrow(scenario, target["narrow"])
+            n_exec += 1
+            if _same_violation(mod.execute(cand), target):
+                cur = cand
+        except BaseException:  # noqa
+            pass
     while improved and time.time() - t0 < budget_s and n_exec < max_exec:
         improved = False
         for cand in mod.shrink(cur):
